@@ -83,6 +83,10 @@ class WriterRef:
                 return "ok"
             return "throw"
         i = int(tok[1:].split(":")[0])
+        if op in ("x", "y") and self.d == "cpp":
+            # C++ stubs: the implementation of an in-order Write / End throws (an out-of-order one is rejected before it is called): either way the call
+            # throws and the step is not completed
+            return "throw"
         if op == "x":
             # python: the call is in order but the implementation raises: the step is not written; a stream that the call ended implicitly stays ended
             if i == self.pos + 1 and self.pos < n and self.p[self.pos] == "s" and self.written:
@@ -147,6 +151,9 @@ class ReaderRef:
         i = int(tok[1:].split(":")[0])
         if self.d == "py" and self.open_iter:
             return ("throw", None)
+        if op == "x" and self.d == "cpp":
+            # the implementation of the read throws: nothing is completed; while the end of a stream is pending the base class may already have moved on
+            return ("dontcare", None) if self.pending else ("throw", None)
         if self.d == "cpp":
             if self.pending and i == self.pos + 1:
                 # the end of the stream was reported by a batch read: moving on completes the step
@@ -272,6 +279,13 @@ def sequences(pat, role, dialect, k, r, n_random, max_len=None):
             for i in range(len(pat)):
                 for a in alpha:
                     seqs.add(pre + ("x%d:%s" % (i, pat[i]), a))
+        if dialect == "cpp":
+            # an implementation that throws once (a failing sink / source): the step it was called for is not completed by that call
+            for i in range(len(pat)):
+                for a in alpha:
+                    seqs.add(pre + ("x%d" % i, a))
+                    if role == "w" and pat[i] == "s":
+                        seqs.add(pre + ("y%d" % i, a))
     for _ in range(n_random):
         seqs.add(tuple(r.choice(alpha) for _ in range(r.randint(1, 2 * len(pat) + 4))))
     return sorted(seqs)
@@ -285,7 +299,7 @@ def expected(pat, role, dialect, k, seq):
         if isinstance(res, str):
             res = (res, None)
         out.append(res)
-        if res[0] == "throw" and (t in ("c", "X") or t[0] == "x"):
+        if res[0] == "throw" and (t in ("c", "X") or t[0] in ("x", "y")):
             continue      # a rejected close() and a raising implementation leave the object where it was: the sequence goes on
         if res[0] != "ok":
             break
@@ -297,36 +311,40 @@ def expected(pat, role, dialect, k, seq):
 def cpp_driver(ns, protos):
     """protos: [(class prefix, pattern, [step method suffixes])]"""
     o = ['#include <cstdio>\n#include <cstdlib>\n#include <iostream>\n#include <sstream>\n#include <string>\n#include <vector>\n#include "protocols.h"\n',
-         "static std::vector<int> g_k;\n"]
+         "static std::vector<int> g_k;\nstatic bool g_fail = false;\nstatic void maybe_fail() { if (g_fail) { g_fail = false; throw std::runtime_error(\"stub implementation fails\"); } }\n"]
     for name, pat, steps in protos:
         o.append("struct W_%s : public %s::%sWriterBase {\n" % (name, ns, name))
         for i, ch in enumerate(pat):
-            o.append("  void Write%sImpl(int32_t const&) override {}\n" % steps[i])
+            o.append("  void Write%sImpl(int32_t const&) override { maybe_fail(); }\n" % steps[i])
             if ch == "s":
-                o.append("  void End%sImpl() override {}\n" % steps[i])
+                o.append("  void End%sImpl() override { maybe_fail(); }\n" % steps[i])
         o.append("};\nstruct R_%s : public %s::%sReaderBase {\n  std::vector<int> left = g_k;\n" % (name, ns, name))
         for i, ch in enumerate(pat):
             if ch == "v":
-                o.append("  void Read%sImpl(int32_t& v) override { v = 7; }\n" % steps[i])
+                o.append("  void Read%sImpl(int32_t& v) override { maybe_fail(); v = 7; }\n" % steps[i])
             else:
-                o.append("  bool Read%sImpl(int32_t& v) override { if (left.at(%d) > 0) { left[%d]--; v = 1; return true; } return false; }\n" % (steps[i], i, i))
+                o.append("  bool Read%sImpl(int32_t& v) override { maybe_fail(); if (left.at(%d) > 0) { left[%d]--; v = 1; return true; } return false; }\n" % (steps[i], i, i))
                 o.append("  using %s::%sReaderBase::Read%sImpl;\n" % (ns, name, steps[i]))
         o.append("};\n")
         o.append("static void run_w_%s(std::vector<std::string> const& seq) {\n  W_%s w;\n  for (auto const& t : seq) {\n    try {\n      std::string a = t.substr(1); size_t c = a.find(':'); int i = t == \"c\" ? -1 : std::stoi(a.substr(0, c)); int arg = c == std::string::npos ? 0 : std::stoi(a.substr(c + 1));\n      (void)arg;\n      if (t == \"c\") { w.Close(); }\n" % (name, name))
         for i, ch in enumerate(pat):
             o.append("      else if (t[0] == 'w' && i == %d) { w.Write%s(int32_t(1)); }\n" % (i, steps[i]))
+            o.append("      else if (t[0] == 'x' && i == %d) { g_fail = true; w.Write%s(int32_t(1)); }\n" % (i, steps[i]))
             if ch == "s":
                 o.append("      else if (t[0] == 'b' && i == %d) { std::vector<int32_t> v(arg, 1); w.Write%s(v); }\n" % (i, steps[i]))
                 o.append("      else if (t[0] == 'e' && i == %d) { w.End%s(); }\n" % (i, steps[i]))
-        o.append('      else { std::printf("throw:no-such-method\\n"); return; }\n      std::printf("ok\\n");\n    } catch (std::exception const& e) { std::printf("throw\\n"); }\n  }\n}\n')
+                o.append("      else if (t[0] == 'y' && i == %d) { g_fail = true; w.End%s(); }\n" % (i, steps[i]))
+        o.append('      else { std::printf("throw:no-such-method\\n"); return; }\n      g_fail = false;\n      std::printf("ok\\n");\n    } catch (std::exception const& e) { g_fail = false; std::printf("throw\\n"); }\n  }\n}\n')
         o.append("static void run_r_%s(std::vector<std::string> const& seq) {\n  R_%s r;\n  for (auto const& t : seq) {\n    try {\n      std::string a = t.substr(1); size_t c = a.find(':'); int i = t == \"c\" ? -1 : std::stoi(a.substr(0, c)); int arg = c == std::string::npos ? 0 : std::stoi(a.substr(c + 1));\n      (void)arg;\n      if (t == \"c\") { r.Close(); std::printf(\"ok\\n\"); }\n" % (name, name))
         for i, ch in enumerate(pat):
             if ch == "v":
                 o.append("      else if (t[0] == 'r' && i == %d) { int32_t v; r.Read%s(v); std::printf(\"ok\\n\"); }\n" % (i, steps[i]))
+                o.append("      else if (t[0] == 'x' && i == %d) { g_fail = true; int32_t v; r.Read%s(v); g_fail = false; std::printf(\"ok\\n\"); }\n" % (i, steps[i]))
             else:
                 o.append("      else if (t[0] == 'r' && i == %d) { int32_t v; bool b = r.Read%s(v); std::printf(\"ok:%%d\\n\", b ? 1 : 0); }\n" % (i, steps[i]))
+                o.append("      else if (t[0] == 'x' && i == %d) { g_fail = true; int32_t v; bool b = r.Read%s(v); g_fail = false; std::printf(\"ok:%%d\\n\", b ? 1 : 0); }\n" % (i, steps[i]))
                 o.append("      else if (t[0] == 'B' && i == %d) { std::vector<int32_t> v; v.reserve(arg); bool b = r.Read%s(v); std::printf(\"ok:%%d:%%zu\\n\", b ? 1 : 0, v.size()); }\n" % (i, steps[i]))
-        o.append('      else { std::printf("throw:no-such-method\\n"); return; }\n    } catch (std::exception const& e) { std::printf("throw\\n"); }\n  }\n}\n')
+        o.append('      else { std::printf("throw:no-such-method\\n"); return; }\n    } catch (std::exception const& e) { g_fail = false; std::printf("throw\\n"); }\n  }\n}\n')
     o.append('#include "binary/protocols.h"\n')
     for name, pat, steps in protos:
         if name.startswith("SmBig"):
